@@ -1,6 +1,8 @@
 package rules
 
 import (
+	"strings"
+	"go/types"
 	"go/token"
 
 	"golang.org/x/tools/go/ssa"
@@ -236,6 +238,133 @@ func c27(x *Ctx) {
 		inRange := loopHeader(cbCalls[0]) != nil
 		// one call per listener per iteration
 		c.Decide(okAfter && inRange, r4, "Reload/callbacks", x.Pos(cbCalls[0]), "every listener is called once, after the new configuration is in place", "listeners are notified before the new configuration is stored (they read the old values), or not in a loop over all listeners")
+		// once the new configuration is stored every path reaches the notification loop (no return in between)
+		if h := loopHeader(cbCalls[0]); h != nil && len(stores) > 0 {
+			r := eng.Explore(eng.Query{Fn: rl, Start: stores[len(stores)-1], Classify: func(in ssa.Instruction, _ eng.Facts) eng.Event {
+				if in == h.Instrs[0] {
+					return eng.EvKill
+				}
+				return eng.EvNone
+			}})
+			skipped := false
+			var path []*ssa.BasicBlock
+			for _, e := range r.Exits {
+				if _, isRet := e.Instr.(*ssa.Return); isRet {
+					skipped, path = true, e.Path
+				}
+			}
+			if skipped {
+				o := c.Violate(r4, "Reload/applied-then-notified", x.Pos(cbCalls[0]), "after the new configuration has been stored a path returns without notifying the listeners (e.g. because validation left a warning): the change is applied, components keep running on the old values, and since the hashes have moved no later reload repeats the notification")
+				o.Path = eng.DescribePath(x.P.Pos, path)
+			} else {
+				c.Hold(r4, "Reload/applied-then-notified", x.Pos(cbCalls[0]), "stored ⇒ the notification loop is reached on every path")
+			}
+		}
+	}
+	// ---- reload validates exactly as startup does: the same validator with the same arguments -----------------
+	// (startup hands the running version to newFileConfig, which turns "removed in version ≤ running" fields into
+	// hard errors; a reload that omits it accepts what startup rejects)
+	const r7 = "C27.same-validation-as-startup"
+	if nfc := x.P.Func("config", "", "newFileConfig"); nfc != nil && nfc.Signature.Variadic() {
+		vp := nfc.Params[len(nfc.Params)-1]
+		nSites := 0
+		for _, e := range x.Callers(nfc) {
+			if e.Site == nil {
+				continue
+			}
+			nSites++
+			c.Examined++
+			args := e.Site.Common().Args
+			va := args[len(args)-1]
+			caller := e.Caller.Func
+			ok, why := false, "passes no version"
+			if k, isK := va.(*ssa.Const); !(isK && k.IsNil()) {
+				// the version comes from the caller's own parameter (startup) or from a field of the running
+				// configuration that was stored from such a parameter
+				if _, fromParam := eng.Derives(va, func(v ssa.Value) bool { _, isP := v.(*ssa.Parameter); return isP && v.Type().String() == vp.Type().String() }, eng.FlowOpts{}); fromParam {
+					ok = true
+				} else if _, fromField := eng.Derives(va, func(v ssa.Value) bool {
+					fr, _, isF := eng.LoadedField(v)
+					if !isF {
+						return false
+					}
+					for _, w := range eng.FieldWrites(x.PkgFuncs("config"), func(q eng.FieldRef) bool { return q.Var == fr.Var }) {
+						if _, d := eng.Derives(w.Instr.(*ssa.Store).Val, func(u ssa.Value) bool { _, isP := u.(*ssa.Parameter); return isP }, eng.FlowOpts{}); d {
+							return true
+						}
+					}
+					return false
+				}, eng.FlowOpts{}); fromField {
+					ok = true
+				} else {
+					why = "passes a version that does not come from what startup was given"
+				}
+			}
+			c.Decide(ok, r7, BaseName(caller)+"/newFileConfig", x.Pos(e.Site), "validates with the running version, as startup does",
+				BaseName(caller)+" "+why+" to newFileConfig: a field whose `lastversion` is at or before the running version is a hard error at startup but only a warning here, so a reload applies a configuration that startup would reject")
+		}
+		if nSites < 2 {
+			c.Undecided(r7, "newFileConfig/callers", x.PosOf(nfc.Pos()), "expected the startup and the reload call site of newFileConfig")
+		}
+	}
+
+	// ---- the periodic trigger keeps firing --------------------------------------------------------------------
+	const r6 = "C27.timer-keeps-firing"
+	if mon := x.Fn(r6, "internal/configwatcher", "ConfigWatcher", "monitor"); mon != nil {
+		n := 0
+		for _, l := range serviceLoops(mon) {
+			for b := range l.Blocks {
+				for _, in := range b.Instrs {
+					sel, ok := in.(*ssa.Select)
+					if !ok {
+						continue
+					}
+					for idx, st := range sel.States {
+						if st.Dir != types.RecvOnly {
+							continue
+						}
+						// a channel read from the C field of a time.Ticker / time.Timer
+						fr, base, ok := eng.LoadedField(st.Chan)
+						if !ok || fr.Name != "C" {
+							continue
+						}
+						tname := typeString(base.Type())
+						switch {
+						case strings.Contains(tname, "time.Ticker"):
+							n++
+							c.Hold(r6, "monitor/ticker", x.Pos(sel), "a Ticker fires every interval without being re-armed")
+						case strings.Contains(tname, "time.Timer"):
+							n++
+							// from this case every path back to the loop head re-arms the timer
+							as := &eng.Assume{Bool: func(v ssa.Value) eng.Tri {
+								if bo, ok := v.(*ssa.BinOp); ok && bo.Op == token.EQL {
+									if e, ok := bo.X.(*ssa.Extract); ok && e.Tuple == ssa.Value(sel) && e.Index == 0 {
+										if k, ok := eng.ConstInt(bo.Y); ok {
+											return triOf(int(k) == idx)
+										}
+									}
+								}
+								return eng.Unknown
+							}}
+							r := eng.Explore(eng.Query{Fn: mon, Assume: as, Start: sel, Classify: func(i2 ssa.Instruction, _ eng.Facts) eng.Event {
+								if cl, ok := i2.(ssa.CallInstruction); ok && eng.CalleeName(cl) == "(*time.Timer).Reset" {
+									return eng.EvKill
+								}
+								if i2 == l.Header.Instrs[0] {
+									return eng.EvSink
+								}
+								return eng.EvNone
+							}})
+							c.Decide(len(r.Hits) == 0, r6, "monitor/timer", x.Pos(sel), "the timer is re-armed on every path back to the wait",
+								"the reload timer is a one-shot time.Timer and some path from its case back to the select (e.g. the error branch) does not Reset it: after one failed reload the periodic trigger never fires again, so a repaired configuration is never applied")
+						}
+					}
+				}
+			}
+		}
+		if n == 0 {
+			c.Undecided(r6, "monitor", x.PosOf(mon.Pos()), "cannot find the periodic reload trigger (a Ticker or Timer channel in the watcher's select loop)")
+		}
 	}
 	// ---- clause 3: atomic check-then-apply ---------------------------------------------------------------
 	const r5 = "C27.atomic-check-then-apply"
